@@ -35,3 +35,8 @@ CLAIMED['C16'] = dict(
          'schedule by bounded search and the schedule is forced on the real pipeline.',
     note='AX-QUEUE / Thread / atomic file writes assumed; granularity = queue operations, thread starts, file writes (as the property states)',
     technique='Owicki-Gries invariant proof (z3) over a transition system extracted from the AST of the real thread functions')
+CLAIMED['C10'] = dict(
+    text='Proof: bounds validation (raises-iff, all None patterns) and outward alignment; by-index cropping for every layout: refusals leave no output, '
+         'write sequence header/data/footer, data length = stated blocks, copied cells/blocks = source cells/blocks of the widened box, regenerated header words, '
+         'footer arrays = source values of the box at the stride of the file version.',
+    note='coordinate front end (get_index_range) not under contract; mk_reader object state assumed; AX-FILE for the output handle')
